@@ -601,13 +601,21 @@ def do_backup(options):
         do_full_backup(options)
         return
     srcsz = os.path.getsize(options.file)
-    if options.quick:
+    quick = options.quick
+    if quick:
         fn, startpos, endpos, sum = scandat(repofiles)
         # If the .dat file was missing, or was empty, do a full backup
         if (fn, startpos, endpos, sum) == (None, None, None, None):
             log('missing or empty .dat file (full backup)')
             do_full_backup(options)
             return
+        if startpos == endpos:
+            # The last incremental is empty (e.g. taken while a transaction
+            # was in progress).  The checksum of an empty range always
+            # matches, also after a pack: check the slow way this time.
+            log('last incremental is empty (checking all files)')
+            quick = False
+    if quick:
         # Has the file shrunk, possibly because of a pack?
         if srcsz < endpos:
             log('file shrunk, possibly because of a pack (full backup)')
